@@ -55,7 +55,7 @@ def candViolation (i : CandIn) (o : CandOut) : Option String :=
   else if o.lp ≠ expectedLP i then some "local preference differs from documented table"
   else if i.component ≤ 256 ∧ o.prio ≠ 16777216 * o.tp + 256 * o.lp + (256 - i.component) then
     some "priority differs from 2^24*tp + 2^8*lp + (256-component)"
-  else if i.component ≤ 256 ∧ o.prio ≥ 2147483648 then some "priority not below 2^31"
+  else if o.prio ≥ 2147483648 then some "priority not below 2^31"
   else if 1 ≤ i.component ∧ i.component ≤ 255 ∧ o.prio < 1 then some "priority below 1"
   else none
 
